@@ -483,6 +483,8 @@ def mk_fstr(parts):
             if isinstance(p, tuple) and p[0] == 'call' and p[1] == ('name', 'str') and len(p[2]) == 1 and not p[3]:
                 p = p[2][0]      # str(x) inside a template formats like x
             out.append(p)
+    if all(isinstance(p, str) for p in out):
+        return ('const', ''.join(out))        # a template whose holes were all filled with constants is that text
     return ('fstr', tuple(out))
 
 
@@ -743,6 +745,11 @@ class SymExec(object):
                 else:
                     args.append(E(a))
             kws = tuple((kw.arg, E(kw.value)) for kw in n.keywords)
+            if any(k is None and v[0] == 'dict' and v[1] and all(kk is not None and kk[0] == 'const' and isinstance(kk[1], str) for kk, _ in v[1]) for k, v in kws):
+                # f(**{'a': x, 'b': y}) is f(a=x, b=y)
+                kws = tuple(kv for k, v in kws for kv in (tuple((kk[1], vv) for kk, vv in v[1])
+                                                           if k is None and v[0] == 'dict' and v[1] and all(kk is not None and kk[0] == 'const' and isinstance(kk[1], str) for kk, _ in v[1])
+                                                           else ((k, v),)))
             if kws and all(k is not None for k, _ in kws) and not any(a_[0] == 'star' for a_ in args):
                 sig = self.record_fields(f) or self.signature(f)
                 if sig is not None:
@@ -760,6 +767,10 @@ class SymExec(object):
                 got_ = _ag(f[2][0])
                 if got_ is not None:
                     return got_
+            if f == ('name', 'int') and len(args) == 1 and not kws and args[0][0] == 'unop' and args[0][1] == 'not':
+                return ('ifexp', args[0][2], ('const', 0), ('const', 1))      # int(not b) is 0 if b else 1
+            if f == ('name', 'len') and len(args) == 1 and not kws and args[0][0] == 'const' and isinstance(args[0][1], str):
+                return ('const', len(args[0][1]))       # the length of a constant text
             if f == ('name', 'Unification') and args:
                 # the matcher takes its patterns as text or as parsed categories: the same matcher either way
                 args = [a_[2][0] if (a_[0] == 'call' and a_[1] == ('attr', ('name', 'Category'), 'parse') and len(a_[2]) == 1
@@ -807,6 +818,9 @@ class SymExec(object):
                     return ('unop', op_, args[0])
                 if kind_ == 'sub':
                     return ('sub', args[0], args[1])
+            if f == ('name', 'dict') and len(args) == 1 and kws and all(k is not None for k, _ in kws) and args[0][0] in ('dict', 'name', 'call'):
+                # dict(base, k=v) is {**base, 'k': v}
+                return ('dict', ((None, args[0]),) + tuple((('const', k), v) for k, v in kws))
             if f == ('name', 'dict') and not args and kws and all(k is not None for k, _ in kws):
                 return ('dict', tuple((('const', k), v) for k, v in kws))      # dict(a=1) is {'a': 1}
             if f in (('attr', ('name', 'chain'), 'from_iterable'), ('attr', ('attr', ('name', 'itertools'), 'chain'), 'from_iterable')) \
@@ -883,6 +897,8 @@ class SymExec(object):
                 cat = concat_str(l, r)
                 if cat is not None:
                     return cat
+                if l[0] == r[0] == 'tuple':
+                    return ('tuple', l[1] + r[1])       # (a, b) + (c,) is (a, b, c)
             if isinstance(n.op, ast.Mod) and l[0] == 'const' and isinstance(l[1], str):
                 f = percent_format(l[1], r)
                 if f is not None:
@@ -940,6 +956,13 @@ class SymExec(object):
             self._guard.pop()
             return ('ifexp', c, a, b)
         if isinstance(n, ast.Tuple):
+            if n.elts and isinstance(n.elts[-1], ast.Starred) and not any(isinstance(x, ast.Starred) for x in n.elts[:-1]) and len(n.elts) > 1:
+                # (a, b, *rest) is (a, b) + rest  (for a tuple `rest`; the spelling the rules know)
+                rest_ = E(n.elts[-1].value)
+                head_ = ('tuple', tuple(E(x) for x in n.elts[:-1]))
+                if rest_[0] == 'tuple':
+                    return ('tuple', head_[1] + rest_[1])
+                return ('binop', '+', head_, rest_)
             return ('tuple', tuple(E(x) for x in n.elts))
         if isinstance(n, ast.List):
             return ('list', tuple(E(x) for x in n.elts))
@@ -980,6 +1003,12 @@ class SymExec(object):
                 conds = tuple(self.ev(c, sub) for c in g.ifs)
                 gens.append((it, conds))
             k, v = self.ev(n.key, sub), self.ev(n.value, sub)
+            if len(gens) == 1 and not gens[0][1]:
+                # over a few known items (a literal table of keys) the comprehension is the display it spells out
+                items_ = self.iter_items(gens[0][0], st, limit=12)
+                if items_ and all(i_[0] == 'const' for i_ in items_):
+                    is_el = lambda x: x[0] == 'elem' and x[1] == gens[0][0]
+                    return ('dict', tuple((replace_term(k, is_el, i_), replace_term(v, is_el, i_)) for i_ in items_))
             return ('dictcomp', k, v, tuple(gens))
         if isinstance(n, ast.Starred):
             return ('star', E(n.value))
@@ -1035,7 +1064,7 @@ class SymExec(object):
             return None
         v = asg.value
         ok = isinstance(v, ast.Constant) or (isinstance(v, ast.Call) and isinstance(v.func, (ast.Name, ast.Attribute))
-                                             and src(v.func) in ('attrgetter', 'operator.attrgetter', 'itemgetter', 'operator.itemgetter'))
+                                             and src(v.func) in ('attrgetter', 'operator.attrgetter', 'itemgetter', 'operator.itemgetter', 'count', 'itertools.count'))
         if not ok:
             return None
         probe = State()
@@ -1545,6 +1574,11 @@ class SymExec(object):
                     not any(isinstance(e, ast.Starred) for e in target.elts):
                 for e, v in zip(target.elts, val[1]):
                     self.bind(e, v, st, node)
+            elif val[0] == 'call' and val[1] == ('name', 'map') and len(val[2]) == 2 and not val[3] \
+                    and not any(isinstance(e, ast.Starred) for e in target.elts):
+                # a, b = map(f, xs): each component is f applied to the corresponding component of xs
+                for i, e in enumerate(target.elts):
+                    self.bind(e, ('call', val[2][0], (('unpack', val[2][1], i),), ()), st, node)
             else:
                 for i, e in enumerate(target.elts):
                     self.bind(e.value if isinstance(e, ast.Starred) else e, ('unpack', val, i), st, node)
